@@ -24,6 +24,15 @@ PROPS = {
         "trusted_base": ["harness/src/s_engine.rs generator and canonicalisation (facts sorted as JSON)", "lean/Codec.lean, lean/Driver.lean JSON glue"],
         "assumptions": ["which of several expression errors is reported is order-dependent in the code; only the error class is compared", "wall-clock limit not exercised in this stream (max_time = 1h)"],
     },
+    "C04": {
+        "module": "BiscuitModel.Props.C04",
+        "streams": ["authz"],
+        "level_text": "Lean 4 theorems about an executable model of AuthorizerBuilder::build + Authorizer::authorize: the trust rule stated outright (trustedFromScopes_spec, visible_spec, defaultTrusted_spec), the three check kinds (check_one_spec, check_all_spec, check_reject_spec: reject passes only when no alternative matches), failed checks in declaration order with their index (failedChecks_spec), policies tried in order (firstPolicy_spec), accepted iff no failed check and the first matching policy is allow (decide_ok_iff, failed_check_refuses). The world the decision is taken on is the exact least fixpoint by C05's run_exact. Tie: tokens of 1-4 blocks (first/third party, scopes on blocks, rules, checks) built through the public API and authorized with generated authorizers; the complete outcome (policy index, exact failed-check list, iteration and fact counts, query/query_all answers, also after a serialization round trip and after sealing) is compared with the compiled model on every case.",
+        "level_note": "Trusted: Lean kernel (standard axioms), harness generator reach, JSON glue, the interning traversal in Model/Intern (tied by the stream). Theorems about checks are stated for evaluations without expression errors (the property's quantifier); cases where an expression error and a match coexist are order-dependent in the code (C11) and are skipped by the comparator (counted in the evidence).",
+        "rule": "authz stream: corpus first, then seeded tokens with 1-4 blocks, third-party blocks signed by a pool of three keys, block/rule/check/policy scopes in {authority, previous, key}, checks of the three kinds with 1-3 alternatives, ordered allow/deny policies; non-trivial = compared case whose token has a check or a policy alternative with a non-empty body; distinct = distinct case JSON",
+        "trusted_base": ["harness/src/prog.rs, s_authz.rs", "lean/Codec.lean, lean/Driver.lean", "Model/Intern.lean traversal order (checked by the stream, not by a theorem)"],
+        "assumptions": ["error-free programs under non-binding limits for the check theorems", "wall-clock limit not exercised (max_time = 1h)"],
+    },
 }
 
 
@@ -81,12 +90,64 @@ def cmp_engine(case, impl, model):
     return None
 
 
-COMPARATORS = {"expr": cmp_default, "engine": cmp_engine}
+def _canon(v):
+    """sets and maps inside query answers are unordered"""
+    if isinstance(v, dict):
+        out = {}
+        for k, x in v.items():
+            if k in ("set", "map") and isinstance(x, list):
+                out[k] = sorted((_canon(e) for e in x), key=lambda e: json.dumps(e, sort_keys=True))
+            else:
+                out[k] = _canon(x)
+        return out
+    if isinstance(v, list):
+        return [_canon(e) for e in v]
+    return v
+
+
+def _canon_query(q):
+    if "facts" in q:
+        return {"facts": sorted(set(json.dumps(_canon(f), sort_keys=True) for f in q["facts"]))}
+    return {"r": q.get("r")}
+
+
+AUTHZ_KEYS = ("r", "p", "pk", "failed", "iterations", "fact_count")
+
+
+def cmp_authz(case, impl, model):
+    if "driver_error" in model:
+        return "driver error: %s" % model["driver_error"]
+    if "panic" in impl:
+        return "implementation panicked: %s" % impl["panic"]
+    if model.get("r") == "MODEL-OUT-OF-FUEL":
+        return "skip"
+    if model.get("amb"):
+        return "skip"
+    for k in ("reload_differs", "reload_error", "sealed_differs", "seal_error"):
+        if k in impl:
+            return "%s: %s" % (k, json.dumps(impl[k])[:200])
+    for k in AUTHZ_KEYS:
+        if impl.get(k) != model.get(k):
+            if k in ("iterations", "fact_count") and impl.get("r") in ("exec", "token-error", "invalid-rule"):
+                continue
+            return "%s differs: impl %s model %s" % (k, json.dumps(impl.get(k)), json.dumps(model.get(k)))
+    qi, qm = impl.get("queries", []), model.get("queries", [])
+    if len(qi) != len(qm) and impl.get("r") != "invalid-rule":
+        return "query count differs"
+    for i, (a, b) in enumerate(zip(qi, qm)):
+        if _canon_query(a) != _canon_query(b):
+            return "query %d differs: impl %s model %s" % (i, json.dumps(_canon_query(a))[:200], json.dumps(_canon_query(b))[:200])
+    return None
+
+
+COMPARATORS = {"expr": cmp_default, "engine": cmp_engine, "authz": cmp_authz}
 
 
 def nontrivial(stream, case, impl):
     if stream == "expr":
         return impl.get("err") != "InvalidStack"
+    if stream == "authz":
+        return impl.get("r") in ("ok", "nomatch", "unauth")
     if stream == "engine":
         return impl.get("r") == "ok" and impl.get("iterations", 0) >= 1
     return True
